@@ -85,6 +85,14 @@ func corpus() []*cborgen.Prog {
 		}, nil, func() []cborgen.KV {
 			return []cborgen.KV{cborgen.KArr("e", cborgen.KStr("", "a"), cborgen.KStr("", "b\"q")), cborgen.KStr("s", "x")}
 		}),
+		// payloads around and beyond the buffer sizes of readers and pools (4 KiB bufio.Reader, 64 KiB pooled buffers)
+		longProg("Str 4095", 4095, 0), longProg("Str 4096", 4096, 0), longProg("Str 4097", 4097, 0), longProg("Str 5000 with escapes", 5000, 2),
+		longProg("Str 9000", 9000, 0), longProg("Str 70000", 70000, 0),
+		cborgen.Fixed("Bytes 4500 / Hex 2100 / Msg 4200", nil, func(e *zerolog.Event) *zerolog.Event {
+			return e.Bytes("b", longBytes(4500, 2)).Hex("h", longBytes(2100, 1))
+		}, nil, func() []cborgen.KV {
+			return []cborgen.KV{cborgen.KBytes("b", longBytes(4500, 2)), cborgen.KHex("h", longBytes(2100, 1))}
+		}),
 		cborgen.Fixed("context: Str, EmbedObject(field-less), EmbedObject(nil), Str",
 			func(c zerolog.Context) zerolog.Context {
 				return c.Str("a", "b").EmbedObject(emptyObj{}).EmbedObject(nil).Str("c", "d")
@@ -93,6 +101,28 @@ func corpus() []*cborgen.Prog {
 			func() []cborgen.KV { return []cborgen.KV{cborgen.KStr("a", "b"), cborgen.KStr("c", "d")} },
 			func() []cborgen.KV { return []cborgen.KV{cborgen.KUint("n", 1)} }),
 	}
+}
+
+func longBytes(n, mode int) []byte {
+	b := make([]byte, n)
+	alphabet := []byte("a\"b\\c\n\xff\x00\xc3\xa9 ")
+	for i := range b {
+		switch mode {
+		case 0:
+			b[i] = byte('a' + i%26)
+		case 1:
+			b[i] = byte(i * 7)
+		default:
+			b[i] = alphabet[(i*i+i/7)%len(alphabet)]
+		}
+	}
+	return b
+}
+
+func longProg(name string, n, mode int) *cborgen.Prog {
+	v := string(longBytes(n, mode))
+	return cborgen.Fixed(name, nil, func(e *zerolog.Event) *zerolog.Event { return e.Str("s", v).Int("after", 1) },
+		nil, func() []cborgen.KV { return []cborgen.KV{cborgen.KStr("s", v), cborgen.KUint("after", 1)} })
 }
 
 func classify(err error) string {
